@@ -30,6 +30,15 @@ func (s *Sys) BatchREST(ts []Tuple, depth *int) (Resp, []struct {
 	for _, x := range ts {
 		arr = append(arr, x.API())
 	}
+	return s.BatchRESTRaw(arr, depth)
+}
+
+// BatchRESTRaw posts a batch whose entries are given in their API form (which
+// can express what Tuple cannot: an entry naming both kinds of subject).
+func (s *Sys) BatchRESTRaw(arr []any, depth *int) (Resp, []struct {
+	Allowed bool   `json:"allowed"`
+	Error   string `json:"error"`
+}) {
 	b, _ := json.Marshal(map[string]any{"tuples": arr})
 	v := url.Values{}
 	if depth != nil {
@@ -108,7 +117,10 @@ func runC08(env *Env, rc *RunCtx) {
 	}
 	unknownNS := !known[q.NS] || (q.Sub.Set != nil && !known[q.Sub.Set.NS])
 	var depth *int
-	dchoice := []int{-99, 0, -1, 1 << 20, c01Depth}[t.Choose(5)]
+	// 1 and 2 are real limits (the search is cut short and every transport has to
+	// report what the engine reports at that depth; at these two depths the engine's
+	// result does not depend on the order in which its branches run)
+	dchoice := []int{-99, 0, -1, 1 << 20, c01Depth, 1, 2}[t.Choose(7)]
 	if dchoice != -99 {
 		depth = &dchoice
 	}
@@ -340,6 +352,83 @@ func runC08(env *Env, rc *RunCtx) {
 		}
 		if !checkBatch("rest", al, er) {
 			return
+		}
+		// one more entry, well-formed JSON that names BOTH a subject id and a subject
+		// set, at a tape-chosen index: whatever the server makes of it (the single
+		// check is asked), the batch is answered and every other entry keeps its result
+		if t.Bool(1, 3) {
+			both := q.API()
+			if both.SubjectSet != nil || q.Sub.Nil {
+				id := pick(t, []string{"u0", "u1", ""})
+				both.SubjectID = &id
+			}
+			if both.SubjectSet == nil {
+				both.SubjectSet = &ketoapi.SubjectSet{Namespace: q.NS, Object: q.Obj, Relation: q.Rel}
+			}
+			pos := t.Choose(n + 1)
+			// whichever of the two subjects the server goes by, the check has to be one
+			// that is worth a comparison (see cheap above)
+			asID, asSet := q, q
+			asID.Sub = Subject{ID: *both.SubjectID}
+			asSet.Sub = Subject{Set: &SetRef{NS: both.SubjectSet.Namespace, Obj: both.SubjectSet.Object, Rel: both.SubjectSet.Relation}}
+			if !cheap(asID) || !cheap(asSet) {
+				rc.Rec.Skipped = "too-expensive"
+				return
+			}
+			var arr []any
+			for i, x := range bt {
+				if i == pos {
+					arr = append(arr, both)
+				}
+				arr = append(arr, x.API())
+			}
+			if pos == n {
+				arr = append(arr, both)
+			}
+			var sa *bool
+			{
+				v := url.Values{}
+				if depth != nil {
+					v.Set("max-depth", fmt.Sprint(*depth))
+				}
+				b, _ := json.Marshal(both)
+				sr := sys.REST(sys.ReadH, "POST", "/relation-tuples/check/openapi", v, b)
+				var cb checkBody
+				if sr.Panic == "" && sr.Status == 200 && json.Unmarshal(sr.Body, &cb) == nil {
+					sa = &cb.Allowed
+				}
+			}
+			r2, res2 := sys.BatchRESTRaw(arr, depth)
+			rc.Rec.Execs++
+			rc.Count("probe_entry_with_both_subject_kinds", 1)
+			bd := func() map[string]any {
+				return w(map[string]any{"batch": desc(), "extra_entry_index": pos, "extra_entry": both})
+			}
+			if res2 == nil {
+				rc.Violate("batch-rejected", "rest", fmt.Sprintf("batch of %d with one entry naming both a subject id and a subject set was rejected as a whole: %s", n+1, r2), bd(), -1, nil)
+				return
+			}
+			if len(res2) != n+1 {
+				rc.Violate("batch-shape", "rest", fmt.Sprintf("%d tuples in, %d results out", n+1, len(res2)), bd(), -1, nil)
+				return
+			}
+			for i := range res2 {
+				j := i
+				if i == pos {
+					if (sa == nil && res2[i].Allowed) || (sa != nil && res2[i].Error == "" && res2[i].Allowed != *sa) {
+						rc.Violate("batch-entry", "rest", fmt.Sprintf("entry %d names both kinds of subject: batch says allowed=%v error=%q, the single check says %v", i, res2[i].Allowed, res2[i].Error, sa), bd(), -1, nil)
+						return
+					}
+					continue
+				}
+				if i > pos {
+					j = i - 1
+				}
+				if res2[i].Allowed != al[j] || (res2[i].Error == "") != (er[j] == "") {
+					rc.Violate("batch-entry", "rest", fmt.Sprintf("entry %d (%s): allowed=%v error=%q without, allowed=%v error=%q with an entry naming both kinds of subject elsewhere in the batch", j, entries[j].T, al[j], er[j], res2[i].Allowed, res2[i].Error), bd(), -1, nil)
+					return
+				}
+			}
 		}
 	}
 	{
